@@ -360,7 +360,7 @@ def run_pss(case, rec):
 # ------------------------------------------------------------------ DSA / ECDSA
 DSS_CANDS = ["genuine", "genuine", "flip", "trunc", "extend", "other-msg", "other-key", "r=0", "s=0", "r=q", "s=q", "r=q+d", "s=q+d", "r=max", "s=max",
              "s-negated", "der-leading-zero", "der-longform", "der-indefinite", "der-trailing", "der-negative", "der-wrong-tag", "der-3-members",
-             "der-nonminimal-len", "binary-for-der", "der-for-binary", "r+q"]
+             "der-nonminimal-len", "binary-for-der", "der-for-binary", "r+q", "insert-00-mid", "insert-00-mid", "insert", "delete", "prepend-00", "widen-halves"]
 CURVE_HASHES = {"p192": ["SHA224", "SHA256", "SHA512", "SHA3_256"], "p224": ["SHA224", "SHA256", "SHA3_512"], "p256": ["SHA256", "SHA384", "SHA512", "SHA3_256"],
                 "p384": ["SHA384", "SHA512", "SHA3_384"], "p521": ["SHA512", "SHA3_512"]}
 DSA_PAIRS = {(1024, 160): ["SHA1", "SHA256", "SHA512"], (2048, 224): ["SHA224", "SHA256"], (2048, 256): ["SHA256", "SHA512"], (3072, 256): ["SHA256", "SHA384"]}
@@ -479,6 +479,20 @@ def run_dss(case, rec):
         c = sig[:-1]
     elif cand == "extend":
         c = sig + b"\0"
+    elif cand == "insert-00-mid":
+        # one zero byte at the r/s boundary (binary) / in the middle (der): the total length is off by one although both "halves" look plausible
+        m_ = ob if enc_ == "binary" else len(sig) // 2
+        c = sig[:m_] + b"\0" + sig[m_:]
+    elif cand == "insert":
+        i_ = pos % (len(sig) + 1)
+        c = sig[:i_] + bytes([(pos // 7) % 256 if pos % 3 else 0]) + sig[i_:]
+    elif cand == "delete":
+        i_ = pos % len(sig)
+        c = sig[:i_] + sig[i_ + 1:]
+    elif cand == "prepend-00":
+        c = b"\0" + sig
+    elif cand == "widen-halves":
+        c = (b"\0" + sig[:ob] + b"\0" + sig[ob:]) if enc_ == "binary" else None
     elif cand == "other-msg":
         c, vmsg = sig, msg + b"z"
     elif cand == "other-key":
